@@ -55,7 +55,7 @@ theorem loop_ok_accepts (cfg : Cfg) (ls : List Level) (st : State) (k c r b cp :
         -- impossible: with `none` the step never returns `ok`
         unfold stepCheck at hs
         simp only at hs
-        split at hs <;> (try split at hs) <;> cases hs
+        split at hs <;> (try split at hs) <;> (try split at hs) <;> cases hs
       | expectOversize => rw [hs] at h; simp at h
       | capped => rw [hs] at h; simp at h
       | bad why => rw [hs] at h; simp at h
